@@ -2,6 +2,7 @@ package main
 
 import (
 	"fmt"
+	"math"
 
 	"github.com/siyul-park/uniflow/pkg/types"
 	"verif/harness/gal"
@@ -116,6 +117,18 @@ func runC14(seed int64, n int, tier string) *Result {
 				return m.Immutable()
 			}
 			a, b, c = pick(), pick(), pick()
+		case 2, 4: // three numbers of ONE kind from its boundary pool (differences that do not fit the width)
+			k := g.R.Intn(10)
+			if g.R.Intn(2) == 0 {
+				k = []int{0, 4, 5, 9}[g.R.Intn(4)] // the widest kinds, where a difference overflows
+			}
+			pick := func() types.Value { return boundary14(k, g.R.Intn(7)) }
+			a, b, c = pick(), pick(), pick()
+		case 3: // slices that share a stem (a value derived twice from the same value)
+			stem := types.NewSlice(g.Value(0), g.Value(0), g.Value(0)).Append(g.Value(0))
+			a = stem.Append(g.Value(0))
+			b = stem.Append(g.Value(0))
+			c = stem.Append(g.Value(0), g.Value(0))
 		}
 		fail := laws14(a, b, c)
 		for _, p := range [][2]types.Value{{a, b}, {b, c}, {a, c}} {
@@ -132,6 +145,30 @@ func runC14(seed int64, n int, tier string) *Result {
 						}
 						d.Clear()
 						_ = m.Set(types.NewString("zz"), types.NewInt(1))
+					}
+				}
+			}
+			// slices: whatever is derived from an operand (or twice from one stem derived from it) leaves it alone
+			for _, v := range []types.Value{x, y} {
+				if sl, ok := v.(types.Slice); ok && fail == "" {
+					before := gal.OValue(sl)
+					stem := sl.Append(types.NewInt(41))
+					left := stem.Append(types.NewInt(42))
+					lr, lh := gal.OValue(left), types.HashOf(left)
+					right := stem.Append(types.NewInt(43))
+					_ = sl.Prepend(types.NewInt(44))
+					if sl.Len() > 0 {
+						_ = sl.Set(0, types.NewInt(45))
+						_ = sl.Sub(0, sl.Len()-1).Append(types.NewInt(46))
+					}
+					ref := types.NewSlice(append(sl.Values(), types.NewInt(41), types.NewInt(42))...)
+					switch {
+					case gal.OValue(sl) != before:
+						fail = "a slice changed after values were derived from it"
+					case gal.OValue(left) != lr || types.HashOf(left) != lh || !types.Equal(left, ref) || types.Compare(left, ref) != 0 || types.HashOf(left) != types.HashOf(ref):
+						fail = "a slice derived by Append changed when a second value was derived from the same stem"
+					case types.Equal(left, right) || types.Compare(left, right) == 0:
+						fail = "two different slices derived from one stem compare equal"
 					}
 				}
 			}
@@ -160,4 +197,32 @@ func runC14(seed int64, n int, tier string) *Result {
 		}
 	}
 	return res
+}
+
+// boundary14: the i-th boundary number (min, min+1, -1, 0, 1, max-1, max) of the k-th integer kind
+func boundary14(k, i int) types.Value {
+	sel := func(min, max int64) int64 { return []int64{min, min + 1, -1, 0, 1, max - 1, max}[i] }
+	usel := func(max uint64) uint64 { return []uint64{0, 1, 2, max / 2, max/2 + 1, max - 1, max}[i] }
+	switch k {
+	case 0:
+		return types.NewInt(int(sel(math.MinInt64, math.MaxInt64)))
+	case 1:
+		return types.NewInt8(int8(sel(math.MinInt8, math.MaxInt8)))
+	case 2:
+		return types.NewInt16(int16(sel(math.MinInt16, math.MaxInt16)))
+	case 3:
+		return types.NewInt32(int32(sel(math.MinInt32, math.MaxInt32)))
+	case 4:
+		return types.NewInt64(sel(math.MinInt64, math.MaxInt64))
+	case 5:
+		return types.NewUint(uint(usel(math.MaxUint64)))
+	case 6:
+		return types.NewUint8(uint8(usel(math.MaxUint8)))
+	case 7:
+		return types.NewUint16(uint16(usel(math.MaxUint16)))
+	case 8:
+		return types.NewUint32(uint32(usel(math.MaxUint32)))
+	default:
+		return types.NewUint64(usel(math.MaxUint64))
+	}
 }
